@@ -15,7 +15,9 @@
    catalogue-verdict = `ok` or `bad <errno>,<errno>,...`     (Validate.job_ok / Validate.violations)
    wf                = `wf` or `nwf`                         (JobView.well_formed)
    discrepancies     = `-` or `D1,D3,...`                    (Validate.discrepancy_flags)
-   With the argument `light`, is_job_invalid_light is run instead of is_job_invalid. *)
+   With the argument `light`, is_job_invalid_light is run instead of is_job_invalid.
+   With the argument `suite`, only `<id0> <id1>` is printed: the suite id that imb_set_session() /
+   submit_burst_and_check() compute for the job (set_cipher_suite_id, calc_cipher_tab_index). *)
 
 module M = Validate_model
 (* not opened: the extracted model defines its own [string] (Coq strings of rule names) *)
@@ -61,12 +63,19 @@ let view_of_line (line : string) : M.job_view =
 
 let () =
   let light = Array.length Sys.argv > 1 && Sys.argv.(1) = "light" in
+  let suite = Array.length Sys.argv > 1 && Sys.argv.(1) = "suite" in
   let buf = Buffer.create (1 lsl 16) in
   (try
      while true do
        let line = input_line stdin in
        if String.length line > 0 && line.[0] <> '#' then begin
          let j = view_of_line line in
+         if suite then begin
+           Buffer.add_string buf (string_of_int (int_of_n (M.set_cipher_suite_id_0 j)));
+           Buffer.add_char buf ' ';
+           Buffer.add_string buf (string_of_int (int_of_n (M.set_cipher_suite_id_1 j)));
+           Buffer.add_char buf '\n'
+         end else begin
          (match (if light then M.is_job_invalid_light j else M.is_job_invalid j) with
           | None -> Buffer.add_string buf "accept"
           | Some e -> Buffer.add_string buf "reject "; Buffer.add_string buf (string_of_int (int_of_n e)));
@@ -80,7 +89,8 @@ let () =
          (match M.discrepancy_flags j with
           | [] -> Buffer.add_char buf '-'
           | l -> Buffer.add_string buf (String.concat "," (List.map (fun e -> "D" ^ string_of_int (int_of_n e)) l)));
-         Buffer.add_char buf '\n';
+         Buffer.add_char buf '\n'
+         end;
          if Buffer.length buf > 60000 then begin print_string (Buffer.contents buf); Buffer.clear buf end
        end
      done
